@@ -56,12 +56,16 @@ class GetsliceMeta(OpMeta):
 
     def hash_args_kwargs(cls, args, kwargs):
         index = args[0] if args else kwargs["index"]
-        if not isinstance(index, tuple):
+        # Distinguish x[0] from x[(0,)] and x[1] from x[True]: equal keys must
+        # mean equal ops, since the cached op is returned for an equal key.
+        is_tuple = isinstance(index, tuple)
+        if not is_tuple:
             index = (index,)
         key = tuple(
-            (x.start, x.stop, x.step) if isinstance(x, slice) else x for x in index
+            (x.start, x.stop, x.step) if isinstance(x, slice) else (type(x), x)
+            for x in index
         )
-        return key
+        return is_tuple, key
 
 
 @UnaryOp.make(metaclass=GetsliceMeta)
